@@ -125,18 +125,26 @@ func strFormat(L *LState) int {
 	for i := 2; i <= top; i++ {
 		args[i-2] = L.Get(i)
 	}
-	npat := countFormatItems(str)
-	if npat > len(args) {
+	verbs := formatItems(str)
+	if len(verbs) > len(args) {
 		L.ArgError(len(args)+2, "no value")
 	}
-	L.Push(LString(fmt.Sprintf(str, args[:npat]...)))
+	for i, verb := range verbs {
+		switch verb {
+		case 'c', 'd', 'i', 'o', 'u', 'x', 'X', 'e', 'E', 'f', 'g', 'G':
+			// numeric conversions take a number or a string convertible to one (luaL_checknumber)
+			args[i] = L.CheckNumber(i + 2)
+		}
+	}
+	L.Push(LString(fmt.Sprintf(str, args[:len(verbs)]...)))
 	return 1
 }
 
-// countFormatItems returns the number of conversion specifications in a format
-// string, i.e. the number of arguments it consumes; "%%" is not one.
-func countFormatItems(str string) int {
-	n := 0
+// formatItems returns the conversion character of every conversion specification in a
+// format string, in order (0 when the string ends inside one); each consumes one argument,
+// "%%" is not one.
+func formatItems(str string) []byte {
+	var verbs []byte
 	for i := 0; i < len(str); i++ {
 		if str[i] != '%' {
 			continue
@@ -145,9 +153,17 @@ func countFormatItems(str string) int {
 			i++
 			continue
 		}
-		n++
+		i++
+		for i < len(str) && strings.IndexByte("-+ #0123456789.", str[i]) >= 0 {
+			i++
+		}
+		if i < len(str) {
+			verbs = append(verbs, str[i])
+		} else {
+			verbs = append(verbs, 0)
+		}
 	}
-	return n
+	return verbs
 }
 
 func strGsub(L *LState) int {
